@@ -6,6 +6,7 @@ package utils
 import (
 	"bufio"
 	"io"
+	"io/fs"
 	"os"
 	"path/filepath"
 )
@@ -22,6 +23,17 @@ func NewLineScanner(reader io.Reader) *bufio.Scanner {
 	scanner.Buffer(nil, MaxLineLength)
 	scanner.Split(bufio.ScanLines)
 	return scanner
+}
+
+// WalkDir is filepath.WalkDir for a root that may be a symbolic link to a directory.
+// filepath.WalkDir does not follow symbolic links, not even for the root itself: a CRS
+// checkout, or its regex-assembly directory, that is reached through a link would be
+// "walked" without visiting a single file.
+func WalkDir(root string, fn fs.WalkDirFunc) error {
+	if resolved, err := filepath.EvalSymlinks(root); err == nil {
+		root = resolved
+	}
+	return filepath.WalkDir(root, fn)
 }
 
 // GlobInDir is filepath.Glob for patterns below a directory whose own path is taken
